@@ -2529,7 +2529,13 @@ def inline_dropout_training_mode_constants_ir(graph: ir.Graph) -> None:
                     continue
                 nv = _read_scalar_bool_from_value_or_constant(nodes, not_in)
                 if nv is not None and bool(nv) is True:
-                    rep_val = _constant_false_value()
+                    rep_val = graph.initializers.get("false_const")
+                    if rep_val is None:
+                        # Register the constant with the graph; an unregistered
+                        # const value is not serialized and leaves the Dropout
+                        # input dangling.
+                        rep_val = _constant_false_value()
+                        graph.register_initializer(rep_val)
                     ins_new = list(ins)
                     ins_new[2] = rep_val
                     old_not_out = _node_output(producer)
